@@ -33,6 +33,7 @@ func concReset() {
 	venv.Reset()
 	vfs.Reset()
 	vfuel.Unlimited()
+	env.DirtyPool() // every execution starts with recycled (non-zero) frame buffers in the library's pool
 }
 
 func concSession() (*packet.Session, *env.Conn) {
